@@ -169,7 +169,7 @@ T.update({
  "C14-r3": dict(file="ast/visitor.go", what="traverser.decodeValue returns from the array branch without giving the nesting level back (objects stay balanced)",
              needs="one ast.Preorder call over a document with more than 4096 arrays in total, at any depth",
              caught={"C14": "quick after strengthening (75 cases)"}, missed={"C14-before": "documents had a few hundred containers at most"},
-             strengthened="C14 flat documents of 4000..9000 sibling containers, one case in forty"),
+             strengthened="C14 flat documents of 4000..9000 sibling containers (about one case in twelve as drawn)"),
  "C15-r3": dict(file="ast/parser.go", what="skipNextPair unquotes a key only if the first escape lies after the first byte",
              needs="lazy object loaded pair by pair (Get/Index/iteration/Set on a still-lazy node) and a key starting with an escape sequence",
              caught={"C15": "quick (107 cases)", "C14": "quick (6 cases)"}, missed={}, strengthened=""),
